@@ -17,7 +17,7 @@ from vmon.util import derive_rng, fp, shash
 
 LEVEL = "exploration"
 MANIFEST = {
-    "text": "The real task graphs of seeded random programs (shared intermediates, fused groups - graphs taken with fusion on and off -, task and disk shuffles, tree reductions, assign/set_index/rename paths, user functions) are executed by our own scheduler in FIFO, LIFO, random-priority and adversarial orders (for every key with >= 2 consumers: each consumer first / last), retaining every value and fingerprinting every dependency, every embedded literal and the user's source frames before and after every task call; by dask's threaded scheduler with 1-16 workers and seeded delays injected between tasks (completion orders recorded through a Callback); and by three repeated compute() calls. All executions must give the same result and no fingerprint may change.",
+    "text": "The real task graphs of seeded random programs (shared intermediates, fused groups - graphs taken with fusion on and off -, task and disk shuffles, tree reductions, assign/set_index/rename paths, user functions) are executed by our own scheduler in FIFO, LIFO, random-priority and adversarial orders (for every key with >= 2 consumers: each consumer first / last), retaining every value and fingerprinting every dependency, every embedded literal and the user's source frames before and after every task call; by dask's threaded scheduler with 1-16 workers and seeded delays injected between tasks (completion orders recorded through a Callback); and by three repeated compute() calls. All executions must give the same result and no fingerprint may change. 26 targeted queries embed mutable objects the user still holds (reader keyword dicts, lists, mappers, frames, arrays); these are fingerprinted around every schedule.",
     "note": "Fingerprints hash logical content (values, index, labels, names, dtypes, attrs), not pandas' block layout. Inside disk-shuffled partitions row order is compared as a multiset. Schedules are sampled (the number of distinct orders and completion interleavings observed is reported), not enumerated.",
     "technique": "runtime monitoring: external adversarial scheduler + threaded stress with injected delays, with a mutation monitor (before/after fingerprints of all task inputs) and a schedule-independence oracle",
     "design_ref": "DESIGN.md section 4, C05",
